@@ -17,13 +17,14 @@ type PtrV struct {
 }
 
 type SliceV struct {
-	Obj    *Obj // nil => nil slice
-	Off    int
-	Len    int
-	Cap    int
-	Elem   types.Type
-	Abs    *AbsBytes // abstract byte string (symbolic length); Obj may be nil then
-	SymLen *Term     // "any other length" class: symbolic length, contents never accessible
+	Obj      *Obj // nil => nil slice
+	Off      int
+	Len      int
+	Cap      int
+	Elem     types.Type
+	Abs      *AbsBytes // abstract byte string (symbolic length); Obj may be nil then
+	SymLen   *Term     // "any other length" class: symbolic length, contents never accessible
+	prefixOf *AbsBytes // set for s[:0] of an abstract slice: the original, whose bytes are now capacity
 }
 
 type AggV struct {
